@@ -360,6 +360,50 @@ def h_attr(ctx, plans):
     return (name,) + out
 
 
+COMBO_EXTRAS = {  # attributes which share a JSON name with another one, or are merged into it (RFC 6793): (flag, code, value for a 4-octet / a 2-octet session)
+    'as4-path': (0xC0, 17, [2, 1, 0, 1, 0x11, 0x70]),
+    'as4-aggregator': (0xC0, 18, [0, 1, 0x11, 0x70, 192, 0, 2, 9]),
+    'aggregator': (0xC0, 7, None),
+    'community': (0xC0, 8, [0xFD, 0xE8, 0, 1]),
+    'med': (0x80, 4, [0, 0, 0, 9]),
+}
+COMBO_MALFORMED = {'none': None, 'med-3-octets': [0x80, 4, 3, 0, 0, 9], 'local-pref-3-octets': [0x40, 5, 3, 0, 0, 9], 'community-6-octets': [0xC0, 8, 6, 0, 1, 0, 2, 0, 3]}
+
+
+def h_attr_combos(ctx):
+    """SEVERAL attributes in one UPDATE: the ones which are merged into another or share its JSON name (AS4_PATH with AS_PATH,
+    AS4_AGGREGATOR with AGGREGATOR - on a 2-octet AND on a 4-octet session, where nothing merges them), optionally beside an
+    attribute malformed the treat-as-withdraw way (the UPDATE is then delivered with its routes withdrawn and the attributes
+    which did decode, BEFORE any merge).  Solver-chosen subset; the event is judged like every other (no duplicate key ...)."""
+    asn4 = bool(ctx.choice('asn4-session', 2))
+    w = A.world(asn4)
+    chosen = [k for k in COMBO_EXTRAS if ctx.choice('with-' + k, 2)]
+    bad = ctx.pick('malformed', sorted(COMBO_MALFORMED))
+    ctx.assume(len(chosen) >= 2, 'at least two of the attributes')
+    if bad.startswith('med'):
+        chosen = [k for k in chosen if k != 'med']
+    if bad.startswith('community'):
+        chosen = [k for k in chosen if k != 'community']
+    attrs = [ORIGIN, as_path(asn4), NEXT_HOP]
+    for k in chosen:
+        flag, code, value = COMBO_EXTRAS[k]
+        if k == 'aggregator':
+            value = [0, 0, 0xFD, 0xE9, 192, 0, 2, 7] if asn4 else [0xFD, 0xE9, 192, 0, 2, 7]
+        attrs.append(tlv(flag, code, value))
+    if COMBO_MALFORMED[bad] is not None:
+        attrs.append(COMBO_MALFORMED[bad])
+        ctx.cover('beside-a-treat-as-withdraw-attribute')
+    if 'as4-path' in chosen:
+        ctx.cover('as-path+as4-path')
+    if 'aggregator' in chosen and 'as4-aggregator' in chosen:
+        ctx.cover('aggregator+as4-aggregator')
+    kind = 'combo:%s%s' % ('+'.join(chosen), '' if bad == 'none' else ':' + bad)
+    if not ctx.sym:
+        decode_and_render(ctx, 'combo', w, update_body(asn4, attrs, nlri=[8, 10]), None)
+    ctx.note('class', kind)
+    return (asn4, chosen, bad)
+
+
 def h_unknown_attr(ctx, th):
     """an attribute code nobody registered: optional transitive (kept as a generic attribute, rendered as hex) and
     optional non-transitive (ignored); the code itself symbolic over the unregistered codes"""
@@ -1090,6 +1134,8 @@ def units(tier):
                 weight = 2000    # thousands of paths (AS_PATH truncations): started first
             us.append(Unit(uname, lambda ctx, chunk=chunk: h_attr(ctx, chunk), must_cover=tuple(cover), weight=weight,
                            max_seconds=T, max_paths=60000, reset=reset, hash_const=True))
+    us.append(Unit('upd/attr/combinations', h_attr_combos, must_cover=('as-path+as4-path', 'aggregator+as4-aggregator', 'beside-a-treat-as-withdraw-attribute'),
+                   weight=40, max_seconds=T, reset=reset, hash_const=True))
     us.append(Unit('upd/attr/unknown', lambda ctx: h_unknown_attr(ctx, th), must_cover=('unknown:transitive', 'unknown:non-transitive'),
                    weight=30, max_seconds=T, reset=reset, hash_const=True))
 
